@@ -336,3 +336,4 @@ _amend("C09", "level", "CRLF normalisation, splice guard,", "CRLF normalisation,
 _amend("C06", "level", "message prefix flows from the token's location)", "message prefix flows from the token's location; an error raised by parse()'s own loop carries a token known to exist there)")
 _amend("C11", "level", "and no separator (',' ';' '}') before it.", "no separator (',' ';' '}') before it, and nothing fetched after a function body has been skipped.")
 _amend("C01", "level", "per-iteration flag re-initialisation and namespace walk,", "per-iteration flag re-initialisation and namespace walk, the #include operand cut out exactly as the lexer rule admits it (shared with C09),")
+_amend("C14", "level", "and no token reported both as a flag and inside a value.", "no token reported both as a flag and inside a value, and every literal of the reference literal grammar taken whole by its lexer rule, so that a literal in a value is one token (language inclusion and leftmost-first preference on the rule automata, shared with C08).")
